@@ -139,14 +139,6 @@ theorem close_full_keeps_later_requirement (s : CS D) (h : Nat) (k : Sink D)
 
 /-! ### catalog invariant -/
 
-/-- ordering key of a snapshot directory: (term, index, name) -/
-def keyOf (n : Nat) (d : Dir D) : Nat × Nat × Nat :=
-  match d.mt with
-  | some m => (m.term, m.index, n)
-  | none => (0, 0, n)
-
-def keyLe (a b : Nat × Nat × Nat) : Prop :=
-  a.1 < b.1 ∨ (a.1 = b.1 ∧ (a.2.1 < b.2.1 ∨ (a.2.1 = b.2.1 ∧ a.2.2 ≤ b.2.2)))
 
 /-- a fully written snapshot directory -/
 structure Complete (n : Nat) (d : Dir D) : Prop where
